@@ -80,12 +80,17 @@ void h_log_sevset(void)
     for (o0 = 0; o0 < 6; o0++) for (s0 = 0; s0 < 7; s0++) {
         in_expr.n = 1; in_expr.op[0] = (unsigned char)o0; in_expr.sev[0] = (unsigned char)s0;
         sevset_case();
-#ifndef SEVSET_ONE_ITEM
+#ifdef SEVSET_SLICE
+        /* quick slice of the two-item expressions: first name command / warning, second debug / error / unknown */
+        if (s0 != 1 && s0 != 3) continue;
+#endif
         for (o1 = 0; o1 < 6; o1++) for (s1 = 0; s1 < 7; s1++) {
+#ifdef SEVSET_SLICE
+            if (s1 != 0 && s1 != 4 && s1 != 6) continue;
+#endif
             in_expr.n = 2; in_expr.op[1] = (unsigned char)o1; in_expr.sev[1] = (unsigned char)s1;
             sevset_case();
         }
-#endif
     }
     V_CANARY();
 }
